@@ -14,27 +14,27 @@ from vf import gen, x36_item
 from vf.core import VERIF, Reject
 
 RULE = (
-  "case = program of 32-34 items run one after another in one process (which also carries the history of the worker's earlier cases); an item = (model, options, flags, Model-only options, capacities, nworld, state, nstep<=3). "
-  "The last item is the subject; the items before it are one-dimension variants of it (exactly one of: integrator / solver / cone / jacobian, one of 18 enable/disable flags incl. SLEEP, ISLAND, NATIVECCD, GRAVITY, "
-  "broadphase type, broadphase filter, warn_overflow, fluid, nworld, nconmax, njmax, geom-type inventory, state) so that they agree with the subject on every other component of MJWarp's process-global cache keys, "
-  "plus optionally an unrelated item and a variant of a variant. "
+  "case = program of 2-10 items run one after another in one fresh process; an item = (model, options, flags, Model-only options, capacities, nworld, state, nstep<=3). "
+  "The last item is the subject; the FIRST item is the subject with a random half of its 31 configuration dimensions changed (integrator / solver / cone / jacobian, 18 enable/disable flags incl. SLEEP, ISLAND, "
+  "NATIVECCD, GRAVITY, broadphase type, broadphase filter, warn_overflow, fluid, nworld, nconmax, njmax, geom-type inventory, state): whatever process-global cache entry it creates first is what the subject "
+  "finds if the key forgets one of the changed dimensions; then 0-8 one-dimension variants of the subject. "
   "Oracle: the last item's result (qpos, qvel, act, qacc, warmstart, sensordata, qfrc_constraint, time, overflow, nefc, solver_niter and the sorted contact list) in-sequence is bit-identical to the same item run "
-  "alone in a fresh Python process; evaluation = one program; non-trivial = the subject produced contacts or constraint rows (every program runs all 31 one-dimension variants before it)"
+  "alone in a fresh Python process; evaluation = one program; non-trivial = the subject produced contacts or constraint rows (every program starts with a half-changed variant of it)"
 )
 ASSUMPTIONS = [
   "CPU device: kernels are deterministic, so bitwise equality across processes is the oracle",
   "the fresh process uses the same on-disk kernel cache (compiled binaries are keyed by source hash)",
 ]
-BUDGET = {"quick": dict(examples=64, seconds=420, workers=16), "thorough": dict(examples=3000, seconds=2400, workers=16)}
+BUDGET = {"quick": dict(examples=96, seconds=420, workers=16), "thorough": dict(examples=3000, seconds=2400, workers=16)}
 
 # flags toggled one at a time (name, the non-default value)
 _FLAGS = [("nativeccd", "disable"), ("multiccd", "disable"), ("island", "disable"), ("energy", "enable"), ("warmstart", "disable"), ("sleep", "enable"), ("gravity", "disable"),
           ("contact", "disable"), ("constraint", "disable"), ("filterparent", "disable"), ("frictionloss", "disable"), ("limit", "disable"), ("equality", "disable"),
           ("eulerdamp", "disable"), ("refsafe", "disable"), ("actuation", "disable"), ("damper", "disable"), ("spring", "disable")]
-_FLAGSETS = [{}, {}, {"sleep": "enable"}, {"sleep": "enable"}, {"sleep": "enable"}, {"nativeccd": "disable"}, {"island": "disable"}, {"sleep": "enable", "island": "disable"}, {"warmstart": "disable"}, {"energy": "enable"}]
+_FLAGSETS = [{}, {"nativeccd": "disable"}, {"sleep": "enable"}, {"sleep": "enable"}, {"sleep": "enable"}, {"nativeccd": "disable"}, {"island": "disable"}, {"sleep": "enable", "island": "disable"}, {"warmstart": "disable"}, {"energy": "enable"}]
 # options that exist only on mjw.Model (set after put_model) or feed kernel specialisation: values menu per dimension (None = default)
 _MOPT = dict(
-  broadphase=[None, 0, 1, 2],  # NXN / SAP_TILE / SAP_SEGMENTED
+  broadphase=[0, 1, 2],  # NXN / SAP_TILE / SAP_SEGMENTED (None = default is added by the item strategy)
   broadphase_filter=[None, 1, 3, 7, 31],
   warn_overflow=[None, False],
   fluid=[None, [1.2, 0.0], [20.0, 0.3]],  # option density / viscosity
@@ -55,7 +55,7 @@ def _item(scene):
     state_seed=st.integers(0, 10**6),
     nstep=st.integers(1, 3),
     scene=st.just(scene),
-    asleep=st.sampled_from([0.0, 0.5, 1.0]),  # with the sleep flag on: fraction of islands / unconstrained trees that start asleep
+    asleep=st.sampled_from([0.5, 1.0, 1.0]),  # with the sleep flag on: fraction of islands / unconstrained trees that start asleep
     mopt=st.fixed_dictionaries({k: st.sampled_from([None] + v) for k, v in _MOPT.items()}),
   )
   if scene:
@@ -105,17 +105,28 @@ def _flip(draw, base, dim, scene):
 
 @st.composite
 def _program(draw):
-  """[unrelated item]? + one one-dimension variant per dimension (31, in a drawn order) of the subject + the subject itself (last; the item that is compared with a fresh process)."""
+  """[H, subject]: H is the subject with a random half of its configuration dimensions changed, run first in the fresh process.
+
+  A process-global cache that forgets dimension d in its key is poisoned by the FIRST item that builds the entry: the subject then inherits H's entry whenever H
+  differs from it in d and agrees on the dimensions the key does contain.  (Running every one-dimension variant before the subject - the previous design - tests
+  almost nothing: the second variant already shares the subject's value of d and builds the right entry first.)  With each dimension flipped independently
+  with probability 1/2, any (missing d, included set K) is hit with probability 2^-(1+|K|) per program."""
   scene = draw(st.booleans())
   subject = draw(_item(scene))
-  dims = draw(st.permutations(_DIMS))  # every dimension is flipped once: the fresh process is the expensive part, in-process variants are cheap
-  items = []
-  if draw(st.booleans()):
-    items.append(dict(draw(_item(scene)), kind="unrelated"))
-  for dname in dims:
+  mask = draw(st.lists(st.booleans(), min_size=len(_DIMS), max_size=len(_DIMS)))
+  if not any(mask):
+    mask[draw(st.integers(0, len(_DIMS) - 1))] = True
+  h = subject
+  flipped = []
+  for dname, on in zip(_DIMS, mask):
+    if on:
+      h = _flip(draw, h, dname, scene)
+      flipped.append(dname)
+  h["kind"] = "half:" + ",".join(flipped)
+  items = [h]
+  # 0-8 one-dimension variants in between: more uses of every process-global structure before the subject (state that wears out with use rather than with the first use)
+  for dname in draw(st.lists(st.sampled_from(_DIMS), min_size=0, max_size=8, unique=True)):
     items.append(_flip(draw, subject, dname, scene))
-  if draw(st.booleans()) and len(items) >= 2:  # a variant of a variant: two dimensions away from the subject
-    items.insert(draw(st.integers(0, len(items) - 1)), _flip(draw, items[-1], draw(st.sampled_from(_DIMS)), scene))
   items.append(dict(subject, kind="subject"))
   return dict(items=items)
 
@@ -139,13 +150,9 @@ def _fresh(item):
 
 def check(case, rec):
   items = case["items"]
-  last = None
-  for it in items[:-1]:
-    try:
-      x36_item.run_item(it)
-    except Reject:
-      rec.cls("earlier-item-rejected")
-  last = x36_item.run_item(items[-1])  # Reject propagates: the program's subject is outside the domain
+  # both sides run in processes of their own: the program (variants, then the subject) in one, the subject alone in another.  The verdict then depends
+  # on the program only - not on what this worker ran before - and the replay file reproduces it
+  last = _fresh(items)  # Reject propagates: the program's subject is outside the domain
   if not all(np.all(np.isfinite(last[k])) for k in ("qpos", "qvel", "qacc")):
     rec.inconclusive += 1
     return
@@ -162,7 +169,6 @@ def check(case, rec):
       )
   kinds = [i["kind"] for i in items]
   rec.cls(f"scene:{items[-1]['scene']}", f"len:{len(items)}", f"nacon>0:{int(last['nacon'][0]) > 0}", f"nefc>0:{int(last['nefc'].max()) > 0}")
-  for k in kinds[:-1]:
-    rec.cls("earlier:" + k.split(".")[0])
+  rec.cls(f"nflipped:{min(8, kinds[0].count(',') + 1) // 2 * 2}+")
   if int(last["nacon"][0]) > 0 or int(last["nefc"].max()) > 0:
     rec.nt()
